@@ -107,6 +107,14 @@ def gen_and_build(root):
     return ok, '\n'.join(log)
 
 
+def build_bb_only(root):
+    """build only the black-box runner (it uses the real seq_io::parallel, not the shims)"""
+    env = _env()
+    hp = os.path.join(root, 'harness_par')
+    rc, out = _run(['cargo', 'build', '--release', '--offline', '--quiet', '--bin', 'parbb'], cwd=hp, env=env)
+    return rc == 0, out[-2000:]
+
+
 def build_checker(root):
     oc = os.path.join(root, 'ocaml')
     ml, mli, chk = (os.path.join(oc, f) for f in ('par.ml', 'par.mli', 'par_check.ml'))
@@ -334,7 +342,9 @@ def _drains(o):
 def _has_error(o):
     if o.get('kind') == 'mock':
         return bool(o.get('script_err'))
-    return o.get('bad_at') is not None
+    # an invalid record, or a source failure that the sequential reader meets too (io_fail_at beyond the last
+    # read call never happens: then seq_err is None)
+    return o.get('bad_at') is not None or (o.get('io_fail_at') is not None and o.get('seq_err') is not None)
 
 
 def _done(o):
@@ -347,6 +357,21 @@ def _done(o):
 def oracle_C07(run):
     f = []
     t = run.get('type')
+    if t == 'abnormal':
+        # a run that deadlocks / panics while the consumer is draining a stream without errors: the record
+        # sets the reader produced never reach the consumer (C08 reports the same run as non-termination)
+        cfg = run.get('cfg', '')
+        if (' Drain' in cfg or 'DrainStopErr' in cfg) and 'ScriptEnd' in cfg and ' true None ' in cfg:
+            f.append('%s in schedule %s of %s: the draining consumer never receives the remaining record sets'
+                     % (run.get('kind'), run.get('sched'), cfg[:120]))
+        return f
+    if t in ('bb', 'rec') and run.get('kind') in ('rec', 'sets', 'mock') and not _done(run):
+        o = run
+        if _drains(o) and _failure_free(o) and not _has_error(o) and not o.get('script_err') \
+                and str(o.get('status', '')).split(':')[0] in ('HANG', 'PANIC'):
+            f.append('call did not return (%s): the draining consumer never receives all record sets (%s)'
+                     % (o.get('status'), _cfg_brief(o)))
+        return f
     if t == 'proto':
         c = _proto(run)
         k = c['k']
@@ -397,7 +422,7 @@ def oracle_C07(run):
         if len(set(ids)) != len(ids):
             f.append('a record was delivered more than once: %s' % ids)
         full = _drains(o) and _failure_free(o)
-        if full and o.get('bad_at') is None and sorted(ids) != sorted(expd):
+        if full and not _has_error(o) and sorted(ids) != sorted(expd):
             f.append('draining consumer saw %d of %d records: missing %s' %
                      (len(ids), len(expd), sorted(set(expd) - set(ids))[:5]))
         if o.get('kind') == 'sets':
@@ -415,7 +440,7 @@ def oracle_C07(run):
             if idx != list(range(len(idx))):
                 f.append('single worker: records delivered out of file order %s' % idx[:20])
         if o.get('kind') == 'rec' and o.get('stop_after') is not None and _failure_free(o) \
-                and o.get('bad_at') is None:
+                and not _has_error(o):
             j = o['stop_after']
             want = min(j, len(expd))
             if len(ids) != want:
@@ -473,7 +498,7 @@ def oracle_C08(run):
 
 def _cfg_brief(o):
     keys = ('kind', 'api', 'fmt', 'n', 'q', 'cap', 'nrec', 'k', 'consumer', 'stop_after', 'bad_at',
-            'bad_kind', 'script_err', 'reader_init_fails', 'dinit_fail_at', 'rset_fail_at', 'rec_fail_at',
+            'bad_kind', 'script_err', 'reader_init_fails', 'dinit_fail_at', 'rset_fail_at', 'rec_fail_at', 'io_fail_at',
             'seed', 'sched', 'shard_seed', 'run')
     return ' '.join('%s=%s' % (k, o[k]) for k in keys if k in o and o[k] is not None)
 
